@@ -70,8 +70,8 @@ theorem exec_acts_emit {σ α π : Type} (M : Machine σ α π) (P : Prog) (n : 
         match M.begin (r.emId e) g r.m with
         | (m1, none) => ({ r with m := m1 }.mark (.emitBegin e g v)).mark .emitEnd
         | (m1, some (a, p)) =>
-          { exec M P n ({ r with m := m1 }.mark (.emitBegin e g v)) (.loop a p v) with
-            m := M.finish a (exec M P n ({ r with m := m1 }.mark (.emitBegin e g v)) (.loop a p v)).m }.mark .emitEnd
+          { exec M P n ({ r with m := m1 }.mark (.emitBegin e g v)) (.loop a p ⟨v, P.ref g⟩) with
+            m := M.finish a (exec M P n ({ r with m := m1 }.mark (.emitBegin e g v)) (.loop a p ⟨v, P.ref g⟩)).m }.mark .emitEnd
       else r) (.acts as) := rfl
 
 theorem exec_acts_prim {σ α π : Type} (M : Machine σ α π) (P : Prog) (n : Nat) (r : Run σ) (a : Action) (as : List Action)
@@ -81,15 +81,27 @@ theorem exec_acts_prim {σ α π : Type} (M : Machine σ α π) (P : Prog) (n : 
   | emit e g v => exact absurd rfl (h e g v)
   | _ => rfl
 
-theorem exec_loop {σ α π : Type} (M : Machine σ α π) (P : Prog) (n : Nat) (r : Run σ) (a : α) (p : π) (v : Nat) :
+theorem exec_loop {σ α π : Type} (M : Machine σ α π) (P : Prog) (n : Nat) (r : Run σ) (a : α) (p : π) (v : Arg) :
     exec M P (n + 1) r (.loop a p v) =
       match M.next r.m a p with
       | .done => r
       | .fault => { r with bad := true }
       | .call l s p' =>
         if M.aliveL r.m l then
-          exec M P n (exec M P n (r.enter (r.lIdx l) s v) (.acts (P.script (r.lIdx l) s (r.inv (r.lIdx l) s)))) (.loop a p' v)
+          exec M P n ((exec M P n (r.enter (r.lIdx l) s v.val) (.acts (P.script (r.lIdx l) s (r.inv (r.lIdx l) s)))).markIf v.ref
+              (.ret (v.val + bumpOf (P.script (r.lIdx l) s (r.inv (r.lIdx l) s)))))
+            (.loop a p' (v.after (v.val + bumpOf (P.script (r.lIdx l) s (r.inv (r.lIdx l) s)))))
         else { r with bad := true } := rfl
+
+theorem markIf_m {σ : Type} (r : Run σ) (c : Bool) (ev : Ev) : (r.markIf c ev).m = r.m := by
+  cases c <;> rfl
+theorem markIf_oof {σ : Type} (r : Run σ) (c : Bool) (ev : Ev) : (r.markIf c ev).oof = r.oof := by
+  cases c <;> rfl
+theorem markIf_inv {σ : Type} (r : Run σ) (c : Bool) (ev : Ev) : (r.markIf c ev).inv = r.inv := by
+  cases c <;> rfl
+theorem markIf_log {σ : Type} (r : Run σ) (c : Bool) (ev : Ev) :
+    (r.markIf c ev).log = (if c then [ev] else []) ++ r.log := by
+  cases c <;> rfl
 
 section sim
 variable {M₁ : Machine σ₁ α₁ π₁} {M₂ : Machine σ₂ α₂ π₂}
@@ -136,13 +148,14 @@ theorem prim_sim (ok : SimOK M₁ M₂ Sim) {K : Stack α₁ π₁ α₂ π₂} 
     simp only [Run.prim, ← ok.aliveE _ hs]
     split <;> exact ⟨hs, ⟨rfl, rfl, rfl, rfl, rfl⟩, rfl, rfl, rfl, rfl, ho⟩
   | emit e g v => exact ⟨hs, ⟨rfl, rfl, rfl, rfl, rfl⟩, rfl, rfl, rfl, rfl, ho⟩
+  | bump d => exact ⟨hs, ⟨rfl, rfl, rfl, rfl, rfl⟩, rfl, rfl, rfl, rfl, ho⟩
 
 /-- **Simulation lifts to programs**, for every fuel: scripts keep the relation with the same
     stack; a loop keeps it with an advanced innermost position. -/
 theorem exec_sim (ok : SimOK M₁ M₂ Sim) (P : Prog) (n : Nat) :
     (∀ (K : Stack α₁ π₁ α₂ π₂) (as : List Action) (r₁ : Run σ₁) (r₂ : Run σ₂), RunRel Sim K r₁ r₂ →
         RunRel Sim K (exec M₁ P n r₁ (.acts as)) (exec M₂ P n r₂ (.acts as))) ∧
-    (∀ (K : Stack α₁ π₁ α₂ π₂) (a : α₁) (p : π₁) (b : α₂) (q : π₂) (v : Nat) (r₁ : Run σ₁) (r₂ : Run σ₂),
+    (∀ (K : Stack α₁ π₁ α₂ π₂) (a : α₁) (p : π₁) (b : α₂) (q : π₂) (v : Arg) (r₁ : Run σ₁) (r₂ : Run σ₂),
         RunRel Sim (((a, p), (b, q)) :: K) r₁ r₂ →
         ∃ p' q', RunRel Sim (((a, p'), (b, q')) :: K) (exec M₁ P n r₁ (.loop a p v)) (exec M₂ P n r₂ (.loop b q v))) := by
   induction n with
@@ -200,7 +213,7 @@ theorem exec_sim (ok : SimOK M₁ M₂ Sim) (P : Prog) (n : Nat) :
                 obtain ⟨a, p⟩ := ap
                 obtain ⟨b, q⟩ := bq
                 simp only [Run.mark]
-                obtain ⟨p', q', hr⟩ := ihL K a p b q v _ _
+                obtain ⟨p', q', hr⟩ := ihL K a p b q ⟨v, P.ref g⟩ _ _
                   (⟨hb, ⟨rfl, rfl, rfl, rfl, rfl⟩, rfl, rfl, rfl, rfl, ho⟩ : RunRel Sim (((a, p), (b, q)) :: K)
                     { m := m1', emId := emId, lId := _, lIdx := _, nextE := _, nextL := _, inv := _, log := _, bad := false, oof := _ }
                     { m := s1, emId := emId, lId := _, lIdx := _, nextE := _, nextL := _, inv := _, log := _, bad := false, oof := _ })
@@ -229,11 +242,14 @@ theorem exec_sim (ok : SimOK M₁ M₂ Sim) (P : Prog) (n : Nat) :
           simp only
           rw [← ok.aliveL l h.sim, hal]
           simp only [if_true]
-          have hen : RunRel Sim (((a, p'), (b, q')) :: K) (r₁.enter (r₁.lIdx l) x v) (r₂.enter (r₁.lIdx l) x v) :=
+          have hen : RunRel Sim (((a, p'), (b, q')) :: K) (r₁.enter (r₁.lIdx l) x v.val) (r₂.enter (r₁.lIdx l) x v.val) :=
             ⟨hs, h.vars, by simp only [Run.enter, h.inv], by simp only [Run.enter, h.log], h.bad₁, h.bad₂, h.oof⟩
           have hsc := ihA _ (P.script (r₁.lIdx l) x (r₁.inv (r₁.lIdx l) x)) _ _ hen
           rw [← h.inv, ← h.vars.2.2.1]
-          exact ihL K a p' b q' v _ _ hsc
+          refine ihL K a p' b q' _ _ _ ?_
+          cases v.ref
+          · exact hsc
+          · exact ⟨hsc.sim, hsc.vars, hsc.inv, by simp only [Run.markIf, Run.mark, if_true, hsc.log], hsc.bad₁, hsc.bad₂, hsc.oof⟩
 
 end sim
 end Nstd.Callback
